@@ -27,14 +27,14 @@ theorem spliceWrite_plain (cfg : Cfg) (w : World) (v ty : Nat) (d : VecSt) (vals
     (hcap : d.len + written + vals.length ≤ d.cap) :
     ∃ d', spliceWrite cfg v ty vals.length vals written w =
         ({ w with vecs := w.vecs.set v d' }, .ok (written + vals.length, [])) ∧
-      d'.len = d.len ∧ d'.cap = d.cap ∧ d'.live = true ∧ d'.ty = d.ty ∧ d'.hasDrop = d.hasDrop ∧ d'.bk = d.bk ∧
+      d'.len = d.len ∧ d'.cap = d.cap ∧ d'.live = true ∧ d'.ty = d.ty ∧ d'.hasDrop = d.hasDrop ∧ d'.bk = d.bk ∧ d'.cloneable = d.cloneable ∧
       d.cells.length ≤ d'.cells.length ∧ d'.cells.length ≤ max d.cells.length (d.len + written + vals.length) ∧
       (∀ j, j < d.len + written → d'.cells.get j = d.cells.get j) ∧
       (∀ j, j < vals.length → d'.cells.get (d.len + written + j) = .val (ids.getD j 0)) ∧
       (∀ j, d.len + written + vals.length ≤ j → d'.cells.get j = d.cells.get j) := by
   induction hpl generalizing w d written with
   | nil =>
-    refine ⟨d, ?_, rfl, rfl, hl, rfl, rfl, rfl, Nat.le_refl _, Nat.le_max_left _ _, fun _ _ => rfl, fun j hj => absurd hj (by simp), fun _ _ => rfl⟩
+    refine ⟨d, ?_, rfl, rfl, hl, rfl, rfl, rfl, rfl, Nat.le_refl _, Nat.le_max_left _ _, fun _ _ => rfl, fun j hj => absurd hj (by simp), fun _ _ => rfl⟩
     have : w.vecs.set v d = w.vecs := by
       apply List.ext_getElem?; intro m
       by_cases hm : v = m
@@ -49,10 +49,10 @@ theorem spliceWrite_plain (cfg : Cfg) (w : World) (v ty : Nat) (d : VecSt) (vals
     have hb : d.len + written < d.cap := by omega
     let d1 : VecSt := { d with cells := (d.cells.ensure (d.len + written + 1)).set (d.len + written) (.val id), live := true }
     let w1 : World := { w with vecs := w.vecs.set v d1 }
-    obtain ⟨d', he, h1, h2, h3, h3a, h3b, h3c, h4, h4u, h5, h6, h7⟩ := ih (w := w1) (d := d1) (written := written + 1)
+    obtain ⟨d', he, h1, h2, h3, h3a, h3b, h3c, h3d, h4, h4u, h5, h6, h7⟩ := ih (w := w1) (d := d1) (written := written + 1)
       (by simp [w1, hlt]) rfl (by simp [w1, hf]) (by simp [d1]; omega)
     refine ⟨d', ?_, by simpa [d1] using h1, by simpa [d1] using h2, h3, by simpa [d1] using h3a,
-      by simpa [d1] using h3b, by simpa [d1] using h3c, ?_, ?_, ?_, ?_, ?_⟩
+      by simpa [d1] using h3b, by simpa [d1] using h3c, by simpa [d1] using h3d, ?_, ?_, ?_, ?_, ?_⟩
     · have hstep : spliceWrite cfg v ty (vs.length + 1) (.wrapper id ty :: vs) written w
           = spliceWrite cfg v ty vs.length vs (written + 1) w1 := by
         simp [spliceWrite, WM.onUnwind, tick, hf, valTy, getVec, hlt, hd, hl, valMoveInto, World.writeCell,
@@ -94,10 +94,10 @@ theorem spliceWrite_plain (cfg : Cfg) (w : World) (v ty : Nat) (d : VecSt) (vals
     have hb : d.len + written < d.cap := by omega
     let d1 : VecSt := { d with cells := (d.cells.ensure (d.len + written + 1)).set (d.len + written) (.val id), live := true }
     let w1 : World := { w with vecs := w.vecs.set v d1 }
-    obtain ⟨d', he, h1, h2, h3, h3a, h3b, h3c, h4, h4u, h5, h6, h7⟩ := ih (w := w1) (d := d1) (written := written + 1)
+    obtain ⟨d', he, h1, h2, h3, h3a, h3b, h3c, h3d, h4, h4u, h5, h6, h7⟩ := ih (w := w1) (d := d1) (written := written + 1)
       (by simp [w1, hlt]) rfl (by simp [w1, hf]) (by simp [d1]; omega)
     refine ⟨d', ?_, by simpa [d1] using h1, by simpa [d1] using h2, h3, by simpa [d1] using h3a,
-      by simpa [d1] using h3b, by simpa [d1] using h3c, ?_, ?_, ?_, ?_, ?_⟩
+      by simpa [d1] using h3b, by simpa [d1] using h3c, by simpa [d1] using h3d, ?_, ?_, ?_, ?_, ?_⟩
     · have hstep : spliceWrite cfg v ty (vs.length + 1) (.raw id ty :: vs) written w
           = spliceWrite cfg v ty vs.length vs (written + 1) w1 := by
         simp [spliceWrite, WM.onUnwind, tick, hf, valTy, getVec, hlt, hd, hl, valMoveInto, World.writeCell,
@@ -156,7 +156,7 @@ theorem spliceDrop_exec (cfg : Cfg) (w : World) (it : RangeIt) (d d1 : VecSt) (e
               { w with vecs := w.vecs.set it.v d1, ev := es.reverse ++ w.ev } with
             vecs := w.vecs.set it.v { d3 with len := it.start + vals.length + (it.origLen - it.end0) } }, .ok ()) ∧
       it.start + vals.length + (it.origLen - it.end0) ≤ d3.cells.length ∧ d3.cells.length ≤ d3.cap ∧ d3.live = true ∧
-      d3.cap = d1.cap ∧ d3.ty = d.ty ∧ d3.bk = d1.bk ∧
+      d3.cap = d1.cap ∧ d3.ty = d.ty ∧ d3.bk = d1.bk ∧ d3.cloneable = d1.cloneable ∧
       (∀ j, j < it.start → d3.cells.get j = d.cells.get j) ∧
       (∀ j, j < vals.length → d3.cells.get (it.start + j) = .val (ids.getD j 0)) ∧
       (∀ j, j < it.origLen - it.end0 → d3.cells.get (it.start + vals.length + j) = d.cells.get (it.end0 + j)) := by
@@ -185,11 +185,11 @@ theorem spliceDrop_exec (cfg : Cfg) (w : World) (it : RangeIt) (d d1 : VecSt) (e
   let w3 : World := w2.upd it.v d2
   have hv3 : w3.vecs[it.v]? = some d2 := by simp [w3, w2, w1, hlt]
   have hpl2 : PlainList vals ids d2.ty := by simpa [d2, hty1] using hpl
-  obtain ⟨d3, hw3, hl3, hcap3, hlive3, hty3, _, hbk3, hlen3, hlenu3, hpre3, hmid3, hpost3⟩ :=
+  obtain ⟨d3, hw3, hl3, hcap3, hlive3, hty3, _, hbk3, hcl3, hlen3, hlenu3, hpre3, hmid3, hpost3⟩ :=
     spliceWrite_plain cfg w3 it.v d2.ty d2 vals ids 0 hpl2 hv3 hlive1 (by simpa [w3, w2, w1] using hf)
       (by simp [d2]; omega)
   have hlt3 : it.v < w3.vecs.length := by simp [w3, w2, w1, hlt]
-  refine ⟨d3, ?_, ?_, ?_, hlive3, by rw [hcap3], by rw [hty3]; simp [d2, hty1], by rw [hbk3], ?_, ?_, ?_⟩
+  refine ⟨d3, ?_, ?_, ?_, hlive3, by rw [hcap3], by rw [hty3]; simp [d2, hty1], by rw [hbk3], by rw [hcl3], ?_, ?_, ?_⟩
   · have hadd1 : checkedAdd it.start vals.length = .ok (it.start + vals.length) := by simp [checkedAdd]; omega
     have hadd2 : checkedAdd (it.start + vals.length) (it.origLen - it.end0) = .ok (it.start + vals.length + (it.origLen - it.end0)) := by
       simp [checkedAdd]; omega
@@ -253,7 +253,7 @@ theorem spliceDrop_replaces (cfg : Cfg) (w : World) (it : RangeIt) (d d1 : VecSt
       r.1.held = w.held ∧ r.1.created = w.created := by
   have hlt : it.v < w.vecs.length := (List.getElem?_eq_some_iff.mp hv).1
   have hidl := hpl.length_eq
-  obtain ⟨d3, he, hlen, _, _, _, _, _, hpre, hmid, hpost⟩ :=
+  obtain ⟨d3, he, hlen, _, _, _, _, _, _, hpre, hmid, hpost⟩ :=
     spliceDrop_exec cfg w it d d1 es vals ids hpl hv hl hf h0 h1 h2 h3 h4 h5 h6 hsmall hres hinit
   intro r orig
   rw [show r = _ from he]
